@@ -18,6 +18,19 @@ from .variants import VARIANTS
 
 
 def apply_variant(sources: dict, variant: dict):
+    if 'patch' in variant:
+        from .corpus import apply_patch, PatchError
+        try:
+            with open(variant['patch'], encoding='utf-8') as stream:
+                overlay = apply_patch(sources, stream.read())
+        except (PatchError, OSError):
+            return None
+        for rel, text in overlay.items():
+            try:
+                compile(text, rel, 'exec')
+            except SyntaxError:
+                return None
+        return overlay or None
     rel = variant['file']
     text = sources.get(rel)
     if text is None:
@@ -86,8 +99,12 @@ def _worker(args):
                 'errors': ['%s: %s' % (type(err).__name__, err)]}
 
 
-def run_selftest(prop_id: str = None, root: str = None, jobs: int = None) -> list:
+def run_selftest(prop_id: str = None, root: str = None, jobs: int = None,
+                 corpus: bool = True) -> list:
     chosen = [v for v in VARIANTS if prop_id is None or v['property'] == prop_id]
+    if corpus:
+        from .corpus import corpus_variants
+        chosen += corpus_variants(prop_id)
     if not chosen:
         return []
     jobs = jobs or min(16, os.cpu_count() or 4, len(chosen))
@@ -106,6 +123,12 @@ def summarise(results: list) -> dict:
         'twins_silent': sum(1 for r in results if r['kind'] == 'twin'
                             and r['status'] == 'ok'),
         'twin_false_alarms': [r['id'] for r in results if r['status'] == 'FALSE-ALARM'],
+        'seeded_changes_detected': sum(1 for r in results if r['kind'] == 'mutant'
+                                       and r['id'].startswith('seeded-')
+                                       and r['status'] == 'ok'),
+        'refactorings_silent': sum(1 for r in results if r['kind'] == 'twin'
+                                   and r['id'].startswith('refactoring-')
+                                   and r['status'] == 'ok'),
         'skipped': [r['id'] for r in results if r['status'] == 'skipped'],
         'errors': [r['id'] for r in results if r['status'] == 'ERROR'],
     }
